@@ -375,7 +375,7 @@ K('C04', 'fix-identity-lookalike', [(INF, "            if Q is None:\n          
 T('C04', 'fix-q-converted', [(INF, "            if Q is None:\n                Q = sparse.eye(self.domain.size(proj))", "            if Q is None:\n                Q = sparse.eye(self.domain.size(proj))\n            elif isinstance(Q, np.ndarray):\n                Q = sparse.csr_matrix(Q)")])
 K('C09', 'setup-reuses-model-total-lost', [(INF, "        model = GraphicalModel(self.domain,cliques,total,elimination_order=self.elim_order)\n", "        if self.warm_start and hasattr(self, 'model') and list(self.model.cliques) == cliques:\n            model = self.model\n        else:\n            model = GraphicalModel(self.domain,cliques,total,elimination_order=self.elim_order)\n")], 'pass-through')
 K('C09', 'pi-preallocated-arrays', [(PI, "    variances = np.array([])\n    estimates = np.array([])\n    for Q, y, noise, proj in measurements:", "    variances = np.zeros(len(measurements))\n    estimates = np.zeros(len(measurements))\n    k = 0\n    for Q, y, noise, proj in measurements:"),
-                                   (PI, "            variances = np.append(variances, noise**2 * np.dot(v, v))\n            estimates = np.append(estimates, np.dot(v, y))\n    if estimates.size == 0:", "            variances[k] = noise**2 * np.dot(v, v)\n            estimates[k] = np.dot(v, y)\n            k += 1\n    if k == 0:")], 'sibling-agreement')
+                                   (PI, "            variances = np.append(variances, noise**2 * np.dot(v, v))\n            estimates = np.append(estimates, np.dot(v, y))\n    if estimates.size == 0:", "            variances[k] = noise**2 * np.dot(v, v)\n            estimates[k] = np.dot(v, y)\n            k += 1\n    if k == 0:")], 'guarded-append')
 K('C14', 'condition-take-loop-stale-axes', [(F, "        slices = [evidence[a] if a in evidence else slice(None) for a in self.domain]\n        newdom = self.domain.marginalize(evidence.keys())\n        values = self.values[tuple(slices)]",
                                                "        newdom = self.domain.marginalize(evidence.keys())\n        values = self.values\n        for a in evidence:\n            if a in self.domain:\n                values = values.take(evidence[a], axis=self.domain.axes([a])[0])")], 'axis-by-name')
 K('C14', 'factor-dot-positional', [(F, "    def datavector(self, flatten=True):\n        \"\"\" Materialize the data vector \"\"\"", "    def dot(self, other):\n        return np.dot(self.datavector(), other.datavector())\n\n    def datavector(self, flatten=True):\n        \"\"\" Materialize the data vector \"\"\"")], 'elementwise')
